@@ -148,7 +148,7 @@ L2_BULK_ARR = [RP + n for n in ["toArray_spec", "toArray_length", "toExistingArr
 L2_CKSUM = ["RModel.Impl.Rep." + n for n in ["checksum_congr", "checksum_clone", "checksum_cloneSrc", "checksum_asDecoded",
                                               "checksum_roundtrip", "checksum_frozenOf", "checksum_frozen_roundtrip"]]
 C13_OWNS = {"frz", "frzsmall", "frzwfail", "fview", "fdec", "fspec", "fchk", "fgc", "wf", "dig", "eq", "card", "toarr"}
-FROZEN_WRITES = {"add", "cadd", "rem", "crem", "addmany", "addr", "remr", "flip", "iand", "ior", "ixor", "iandnot", "opt", "clear", "clone",
+FROZEN_WRITES = {"add", "cadd", "rem", "crem", "addmany", "addmanyfrom", "addr", "remr", "flip", "iand", "ior", "ixor", "iandnot", "opt", "clear", "clone",
                  "and", "or", "xor", "andnot", "has", "rank", "sel", "min", "max"}
 C16_OWNS = {"off", "off32", "sflip", "eq", "dense", "fromdense", "frombitset", "densechk", "dig",
             "zdense", "zfromdense", "safe", "digall", "zdetach", "zsame", "l2off", "l2sflip", "l2dense", "l2fromdense"}
